@@ -16,10 +16,10 @@ EXTENDS Lattice, Chars
 cSP == 32  cDASH == 45  cTILDE == 126  cBAR == 124  cCOLON == 58  cBANG == 33
 cPLUS == 43  cDOT == 46  cAPOS == 39  cCOMMA == 44  cBQUOTE == 96  cUNDER == 95  cEQ == 61
 cSLASH == 47  cBSLASH == 92  cLPAR == 40  cRPAR == 41
-cGT == 62  cLT == 60  cCARET == 94  cv == 118  cV == 86
+cGT == 62  cLT == 60  cCARET == 94  cv == 118  cV == 86  cSTAR == 42  co == 111  cO == 79  cX == 88
 
 Modelled == {cSP, cDASH, cTILDE, cBAR, cCOLON, cBANG, cPLUS, cDOT, cAPOS, cCOMMA, cBQUOTE, cUNDER, cEQ,
-             cSLASH, cBSLASH, cLPAR, cRPAR, cGT, cLT, cCARET, cv, cV}
+             cSLASH, cBSLASH, cLPAR, cRPAR, cGT, cLT, cCARET, cv, cV, cSTAR, co, cO, cX}
 
 G(gx, gy) == <<gx * 2, gy * 4>>
 pa == G(0,0) pb == G(1,0) pc == G(2,0) pd == G(3,0) pe == G(4,0)
@@ -37,6 +37,8 @@ Broken(p1, p2) == [k |-> "L", s |-> PMin(p1, p2), e |-> PMax(p1, p2), b |-> TRUE
 Arc(p1, p2, rad) == IF PLe(p1, p2) THEN [k |-> "A", s |-> p1, e |-> p2, r |-> rad, sw |-> FALSE, mj |-> FALSE]
                     ELSE [k |-> "A", s |-> p2, e |-> p1, r |-> rad, sw |-> TRUE, mj |-> FALSE]
 U2 == 4  U4 == 8  U6 == 12  U8 == 16  U16 == 32  B12 == 3
+\* a small circle (bullet): centre, radius, filled
+Circ(p, rad, filled) == [k |-> "C", c |-> p, r |-> rad, f |-> filled]
 \* a filled polygon (arrowhead): the sequence of its vertices
 Poly(pts) == [k |-> "P", pts |-> pts]
 AdjX(p, h) == <<p[1] + h, p[2]>>          \* adjust_x(h / 2): half a quarter-cell is one lattice unit
@@ -72,6 +74,13 @@ Sig(ch) ==
     [] ch = cCARET -> << <<MEDIUM, <<Poly(<<pp, pc, pt>>)>> >> >>
     [] ch = cGT    -> << <<MEDIUM, <<Poly(<<pf, po, pp>>)>> >> >>
     [] ch = cLT    -> << <<MEDIUM, <<Poly(<<pj, pk, pt>>)>> >> >>
+    [] ch = cX     -> << <<STRONG, <<Line(pa, py), Line(pu, pe)>> >> >>
+    [] ch = cSTAR  -> << <<STRONG, <<Circ(pm, 3, TRUE)>> >>, <<MEDIUM, <<Line(pc, pw), Line(pk, po)>> >>,
+                         <<WEAK, <<Line(pa, py), Line(pu, pe)>> >> >>
+    [] ch = co     -> << <<MEDIUM, <<Circ(pm, 3, FALSE)>> >>, <<MEDIUM, <<Line(pk, po)>> >>, <<WEAK, <<Line(pc, pw)>> >>,
+                         <<WEAK, <<Line(pa, py), Line(pu, pe)>> >> >>
+    [] ch = cO     -> << <<MEDIUM, <<Circ(pm, 4, FALSE)>> >>, <<MEDIUM, <<Line(pk, po)>> >>, <<WEAK, <<Line(pc, pw)>> >>,
+                         <<WEAK, <<Line(pa, py), Line(pu, pe)>> >> >>
     [] OTHER -> <<>>
 
 \* Property::arcs_to: some signature arc runs from a to b in that direction (whatever its radius)
@@ -196,6 +205,20 @@ Rules(ch, N) ==
             <<N.l = cBQUOTE, <<Poly(<<pf, po, pp>>)>> >>,
             <<N.l = cDOT, <<Poly(<<pf, po, pp>>)>> >>,
             <<N.l = cGT, <<Poly(<<pf, po, pp>>)>> >> >>
+    [] ch = cX ->
+         << <<Str(N.l, pm, po), <<Line(pm, pk)>> >>, <<Str(N.r, pk, pl), <<Line(pm, po)>> >>,
+            <<Str(N.t, pr, pw), <<Line(pm, pc)>> >>, <<Str(N.b, pc, ph), <<Line(pm, pw)>> >>,
+            <<Str(N.tl, ps, py), <<Line(pm, pa)>> >>, <<Str(N.tr, pu, pq), <<Line(pm, pe)>> >>,
+            <<Str(N.bl, pe, pi), <<Line(pm, pu)>> >>, <<Str(N.br, pa, pg), <<Line(pm, py)>> >> >>
+    [] ch \in {cSTAR, co, cO} ->
+         LET bullet == IF ch = cSTAR THEN Circ(pm, 3, TRUE) ELSE IF ch = co THEN Circ(pm, 3, FALSE) ELSE Circ(pm, 4, FALSE)
+             attached == Str(N.t, pr, pw) \/ Str(N.b, pc, ph) \/ Str(N.l, pn, po) \/ Str(N.r, pk, pl) \/ Str(N.tl, ps, py)
+                         \/ Str(N.br, pa, pg) \/ Str(N.bl, pu, pq) \/ Str(N.tr, pe, pi) IN
+         << <<attached, <<bullet>> >>,
+            <<Str(N.t, pr, pw), <<Line(pc, ph)>> >>, <<Str(N.b, pc, ph), <<Line(pw, pr)>> >> >>
+         \o (IF ch = cSTAR THEN << <<Med(N.l, pn, po), <<Line(pk, pm)>> >>, <<Med(N.r, pk, pl), <<Line(pm, po)>> >> >> ELSE <<>>)
+         \o << <<Str(N.tl, ps, py), <<Line(pa, pg)>> >>, <<Str(N.tr, pu, pq), <<Line(pe, pi)>> >>,
+               <<Str(N.bl, pe, pi), <<Line(pu, pq)>> >>, <<Str(N.br, pa, pg), <<Line(ps, py)>> >> >>
     [] ch = cLT ->
          << <<Med(N.r, pk, pl), <<Poly(<<pj, pk, pt>>)>> >>,
             <<Med(N.l, pm, po) /\ ~Med(N.r, pk, pl), <<Line(pj, pk), Line(pk, pt)>> >>,
